@@ -10,6 +10,6 @@ for u, m in R.unit_index().items():
             ok, info = scratch.run_replay_driver(drv)
             print('passed' if ok else ('FAILED' if ok is False else 'NO RESULT (build error?)'), info.get('wall_s'))
             for l in info.get('failing_input', []): print(l)
-            if ok is not True: print(info['tail'][-2500:])
+            if ok is not True: print(info["tail"][-int(os.environ.get("TAIL","2500")):])
             sys.exit(0 if ok else 1)
 print('no such driver'); sys.exit(2)
